@@ -88,6 +88,74 @@ def _expected_args(cname, box):
     return ext, grid, size, n
 
 
+def _numerically_different(cname, gu, gv, wu, wv):
+    import random
+    rnd = random.Random(7)
+    syms = sorted((gu.free_symbols | gv.free_symbols | wu.free_symbols | wv.free_symbols), key=lambda s_: s_.name)
+    for _ in range(3):
+        sub = {s_: sp.Rational(rnd.randint(3, 40), rnd.randint(3, 9)) for s_ in syms}
+        try:
+            a, b, c, d = (complex(e.subs(sub).evalf(30)) for e in (gu, gv, wu, wv))
+        except (TypeError, ValueError):
+            return False
+        if cname == 'EllipsePixelRegion':
+            if abs(a * a + b * b - c * c - d * d) > 1e-9 * (1 + abs(c * c + d * d)):
+                return True
+        else:
+            same_ = abs(a * a - c * c) < 1e-9 * (1 + abs(c * c)) and abs(b * b - d * d) < 1e-9 * (1 + abs(d * d))
+            swap_ = abs(a * a - d * d) < 1e-9 * (1 + abs(d * d)) and abs(b * b - c * c) < 1e-9 * (1 + abs(c * c))
+            if not (same_ or swap_):
+                return True
+    return False
+
+
+def sizes_equivalent(cname, got, want):
+    """the size arguments handed to the kernel describe the same shape as the conventional ones (`want`), on every branch of
+    a conditional hand-off: for an ellipse (a, b, theta) the quadratic form (x cos t + y sin t)^2/a^2 + (-x sin t + y cos t)^2/b^2
+    must be the region's; for a rectangle likewise the pair of strip forms.  True / False / None (not decidable)."""
+    from ..vg import subst_bool, walk_terms
+    if cname not in ('EllipsePixelRegion', 'RectanglePixelRegion') or len(got) != 3 or len(want) != 3:
+        return None
+    atoms = []
+    for g in got:
+        for x in walk_terms(g):
+            if isinstance(x, Ite):
+                for c in conj_list(x.cond) if not isinstance(x.cond, BoolT) or x.cond.op == 'and' else [x.cond]:
+                    if not any(same(c, a_) for a_ in atoms):
+                        atoms.append(c)
+    if len(atoms) > 3:
+        return None
+    X, Y = sp.Symbol('X_', real=True), sp.Symbol('Y_', real=True)
+
+    def forms(a, b, t):
+        u = X * sp.cos(t) + Y * sp.sin(t)
+        v = -X * sp.sin(t) + Y * sp.cos(t)
+        return (u / a, v / b)
+    wu, wv = forms(*want)
+    import itertools as _it
+    for vals in _it.product((True, False), repeat=len(atoms)):
+        cur = list(got)
+        for a_, val in zip(atoms, vals):
+            cur = [subst_bool(g, a_, val) for g in cur]
+        if not all(is_num(g) for g in cur):
+            return None
+        gu, gv = forms(*cur)
+        # a numeric counterexample settles "different" at once (and keeps sympy away from hopeless simplifications)
+        if _numerically_different(cname, gu, gv, wu, wv):
+            return False
+        if cname == 'EllipsePixelRegion':
+            d = sp.expand(sp.expand_trig(gu ** 2 + gv ** 2 - wu ** 2 - wv ** 2))
+            ok = sp.simplify(sp.trigsimp(d)) == 0
+        else:
+            # the rectangle is |u| <= 1/2 and |v| <= 1/2 (sizes are full widths): the unordered pair {u^2, v^2} must agree
+            def z(e):
+                return sp.simplify(sp.trigsimp(sp.expand(sp.expand_trig(e)))) == 0
+            ok = (z(gu ** 2 - wu ** 2) and z(gv ** 2 - wv ** 2)) or (z(gu ** 2 - wv ** 2) and z(gv ** 2 - wu ** 2))
+        if not ok:
+            return False
+    return True
+
+
 def r2(ctx):
     for cname in MASKED:
         ci, f, s, t, ev, a = _grid_args(ctx, cname)
@@ -101,7 +169,10 @@ def r2(ctx):
             ctx.bad(construct, 'kernel-arity', f'kernel called with {len(a)} arguments, expected {len(want)}', f.loc())
             continue
         bad = None
+        size_ok = sizes_equivalent(cname, list(a[6:6 + len(size)]), size) if not any(isinstance(x, str) for x in size) else None
         for nm, g, w in zip(names, a, want):
+            if size_ok and nm.startswith('size'):
+                continue        # another, equivalent parametrisation of the same shape (decided on the quadratic form)
             if isinstance(w, str):
                 src = {'vx': 'self.vertices.x', 'vy': 'self.vertices.y'}[w]
                 other = {'vx': 'self.vertices.y', 'vy': 'self.vertices.x'}[w]
@@ -316,9 +387,58 @@ def r4(ctx):
         (sargs, genv), gp = grid_skeleton(ctx, g, s)
         ctx.need(sargs is not None, construct, 'sampler call not found in grid kernel')
         gparams = [x.arg for x in g.node.args.args]
-        bind = {sym(p, positive=p in ('nx', 'ny', 'subpixels', 'r', 'rx', 'ry', 'width', 'height')): av
-                for p, av in zip(gparams, a)}
+        # a conditional hand-off (arguments that are ite(...) terms): every branch is compared
+        branches = _arg_branches(list(a))
+        ctx.need(branches is not None, construct, 'call-site arguments depend on more than three conditions')
         sparams = [x.arg for x in s.node.args.args]
+        worst = None
+        for a_b in branches:
+            st_ = _r4_branch(ctx, cname, construct, g, s, gparams, sparams, sargs, a_b, v)
+            order = {'ok': 0, 'strictness': 1}
+            if isinstance(st_, tuple) or worst is None or (not isinstance(worst, tuple) and order[st_] > order[worst]):
+                worst = st_
+            if isinstance(worst, tuple):
+                break
+        if isinstance(worst, tuple):
+            ctx.bad(construct, 'kernel-predicate', worst[1], s.loc())
+        elif worst == 'strictness':
+            ctx.bad(f'{cname}', 'strictness',
+                    'boundary polynomials agree but strictness differs: the mask kernel uses a strict '
+                    'inequality where contains() uses <= (a pixel centre exactly on the boundary is a member '
+                    'but its centre-mode mask value is 0)', s.loc())
+        else:
+            ctx.ok(construct, 'same predicate (normal forms agree, same strictness)')
+
+
+def _arg_branches(args):
+    """the argument lists of a call on every truth assignment of the conditions its ite(...) arguments depend on."""
+    import itertools as _it
+    from ..vg import subst_bool, walk_terms
+    atoms = []
+    for g_ in args:
+        for x in walk_terms(g_):
+            if isinstance(x, Ite):
+                for c in (conj_list(x.cond) if not isinstance(x.cond, BoolT) or x.cond.op == 'and' else [x.cond]):
+                    if not any(same(c, a_) for a_ in atoms):
+                        atoms.append(c)
+    if not atoms:
+        return [args]
+    if len(atoms) > 3:
+        return None
+    out = []
+    for vals in _it.product((True, False), repeat=len(atoms)):
+        cur = list(args)
+        for a_, val in zip(atoms, vals):
+            cur = [subst_bool(g_, a_, val) for g_ in cur]
+        out.append(cur)
+    return out
+
+
+def _r4_branch(ctx, cname, construct, g, s, gparams, sparams, sargs, a, v):
+    """'ok' | 'strictness' | ('bad', message) for one branch of the hand-off."""
+    if True:
+        bind = {sym(p, positive=p in ('nx', 'ny', 'subpixels', 'r', 'rx', 'ry', 'width', 'height')): av
+                for p, av in zip(gparams, a) if is_num(av)}
         (pred, info), sp_probs = subpixel_skeleton(ctx, s)
         ctx.need(pred is not None, construct, 'sampler predicate not found')
         # sampler param symbol -> grid-level term -> to_mask-level term
@@ -353,16 +473,9 @@ def r4(ctx):
                             break
                 res.append(r)
         if not ok or any(r not in ('eq', 'strictness') for r in res):
-            ctx.bad(construct, 'kernel-predicate',
-                    f'after substituting the call-site arguments the kernel samples {show(subst(pred), 260)} '
-                    f'but contains() decides {show(v, 260)}', s.loc())
-        elif 'strictness' in res:
-            ctx.bad(f'{cname}', 'strictness',
-                    'boundary polynomials agree but strictness differs: the mask kernel uses a strict '
-                    'inequality where contains() uses <= (a pixel centre exactly on the boundary is a member '
-                    'but its centre-mode mask value is 0)', s.loc())
-        else:
-            ctx.ok(construct, 'same predicate (normal forms agree, same strictness)')
+            return ('bad', f'after substituting the call-site arguments the kernel samples {show(subst(pred), 260)} '
+                    f'but contains() decides {show(v, 260)}')
+        return 'strictness' if 'strictness' in res else 'ok'
 
 
 def _compound_setup(ctx):
